@@ -446,4 +446,336 @@ example :
     r.elem = [("a".toList, 5), ("b".toList, 6), ("c".toList, 7)] ∧ r.exc = some .valueError ∧
       r.reads = ["a".toList, "b".toList] := by decide
 
+/-! ### the seeded mutation `lazyUpdate` is invisible on every successful call (p3) -/
+
+def okeys (o : Obj V) : List Str := o.map (·.1)
+
+theorem okeys_set (o : Obj V) (k : Str) (v : V) (x : Str) : x ∈ okeys (o.set k v) ↔ x = k ∨ x ∈ okeys o := by
+  induction o with
+  | nil => simp [Obj.set, okeys]
+  | cons p rest ih =>
+    obtain ⟨a, w⟩ := p
+    simp only [Obj.set]
+    by_cases h : a = k
+    · subst h; simp [okeys]
+    · simp only [h, if_false]
+      simp only [okeys, List.map_cons, List.mem_cons] at ih ⊢
+      rw [ih]; constructor <;> (intro h; rcases h with h | h | h <;> simp [h])
+
+/-- writing the same attribute twice: the second value stays -/
+theorem set_set_same (o : Obj V) (k : Str) (v w : V) : (o.set k v).set k w = o.set k w := by
+  induction o with
+  | nil => simp [Obj.set]
+  | cons p rest ih =>
+    obtain ⟨a, u⟩ := p
+    by_cases h : a = k
+    · subst h; simp [Obj.set]
+    · simp [Obj.set, h, ih]
+
+/-- writes to different attributes commute once one of them exists on the object (a NEW attribute
+    is appended, so two new ones do not commute as lists) -/
+theorem set_comm_of_mem (o : Obj V) (k a : Str) (v x : V) (hk : k ∈ okeys o) (hne : a ≠ k) :
+    (o.set a x).set k v = (o.set k v).set a x := by
+  induction o with
+  | nil => simp [okeys] at hk
+  | cons p rest ih =>
+    obtain ⟨b, u⟩ := p
+    by_cases hb : b = k
+    · subst hb
+      have : ¬ b = a := fun e => hne e.symm
+      simp [Obj.set, this]
+    · have hk' : k ∈ okeys rest := by
+        simp only [okeys, List.map_cons, List.mem_cons] at hk
+        rcases hk with h | h
+        · exact absurd h.symm hb
+        · exact h
+      by_cases ha : b = a
+      · subst ha; simp [Obj.set, hb]
+      · simp [Obj.set, hb, ha, ih hk']
+
+theorem foldl_set_comm (m : List (Str × V)) (o : Obj V) (k : Str) (v : V) (hk : k ∈ okeys o)
+    (hm : k ∉ keys m) :
+    (m.foldl (fun o p => o.set p.1 p.2) o).set k v = m.foldl (fun o p => o.set p.1 p.2) (o.set k v) := by
+  induction m generalizing o with
+  | nil => rfl
+  | cons p rest ih =>
+    obtain ⟨a, x⟩ := p
+    simp only [keys, List.map_cons, List.mem_cons, not_or] at hm
+    simp only [List.foldl_cons]
+    rw [ih (o.set a x) ((okeys_set o a x k).mpr (Or.inr hk)) (by simpa [keys] using hm.2),
+      set_comm_of_mem o k a v x hk (fun e => hm.1 e.symm)]
+
+/-- `for k, v in d.items(): setattr(o, k, v)` after `d[k] = v` = the same loop over `d`, then one
+    more `setattr(o, k, v)` — positions included -/
+theorem foldl_set_dictSet (d : List (Str × V)) (hd : (keys d).Nodup) (o : Obj V) (k : Str) (v : V) :
+    (dictSet d k v).foldl (fun o p => o.set p.1 p.2) o = (d.foldl (fun o p => o.set p.1 p.2) o).set k v := by
+  induction d generalizing o with
+  | nil => rfl
+  | cons p rest ih =>
+    obtain ⟨a, x⟩ := p
+    simp only [keys, List.map_cons, List.nodup_cons] at hd
+    by_cases h : a = k
+    · subst h
+      simp only [dictSet, if_true, List.foldl_cons]
+      rw [foldl_set_comm rest (o.set a x) a v ((okeys_set o a x a).mpr (Or.inl rfl)) hd.1, set_set_same]
+    · simp only [dictSet, h, if_false, List.foldl_cons]
+      exact ih hd.2 _
+
+theorem foldl_set_foldl_dictSet (ps d : List (Str × V)) (hd : (keys d).Nodup) (o : Obj V) :
+    (ps.foldl (fun d p => dictSet d p.1 p.2) d).foldl (fun o p => o.set p.1 p.2) o =
+      ps.foldl (fun o p => o.set p.1 p.2) (d.foldl (fun o p => o.set p.1 p.2) o) := by
+  induction ps generalizing d with
+  | nil => rfl
+  | cons p rest ih =>
+    simp only [List.foldl_cons]
+    rw [ih _ (keys_dictSet_nodup d p.1 p.2 hd), foldl_set_dictSet d hd]
+
+/-- **writing the dict = writing the pairs one by one**: `dict(sliced)` keeps the FIRST position
+    and the LAST value of a repeated key, and so does a sequence of `setattr` calls -/
+theorem foldl_set_dictOf (ps : List (Str × V)) (o : Obj V) :
+    (dictOf ps).foldl (fun o p => o.set p.1 p.2) o = ps.foldl (fun o p => o.set p.1 p.2) o :=
+  foldl_set_foldl_dictSet ps [] (by simp [keys]) o
+
+theorem writeAll_ok (rej : Str → Option Err) (o : Obj V) (m : List (Str × V)) (h : ∀ p ∈ m, rej p.1 = none) :
+    writeAll rej o m = ⟨none, m.foldl (fun o p => o.set p.1 p.2) o⟩ := by
+  induction m generalizing o with
+  | nil => rfl
+  | cons p rest ih =>
+    obtain ⟨k, v⟩ := p
+    have hk : rej k = none := h (k, v) List.mem_cons_self
+    simp only [writeAll, hk, List.foldl_cons]
+    exact ih _ (fun q hq => h q (List.mem_cons_of_mem _ hq))
+
+/-- the interleaved loop on a selection that can be computed in full and an object that accepts
+    the selected names: one `setattr` per selected pair, in order -/
+theorem lazyLoop_ok (a : Args) (pk : PKey) (rej : Str → Option Err) (ps sel : List (Str × V)) (o : Obj V)
+    (hs : keysliceLoopP a pk ps = .ok sel) (hrej : ∀ p ∈ sel, rej p.1 = none) :
+    lazyLoop a pk rej o ps = ⟨none, sel.foldl (fun o p => o.set p.1 p.2) o⟩ := by
+  induction ps generalizing o sel with
+  | nil => simp only [keysliceLoopP, Except.ok.injEq] at hs; subst hs; rfl
+  | cons p rest ih =>
+    obtain ⟨k, v⟩ := p
+    simp only [keysliceLoopP] at hs
+    simp only [lazyLoop]
+    cases hk : pk k with
+    | error x => rw [hk] at hs; cases hs
+    | ok k1 =>
+      rw [hk] at hs; simp only at hs ⊢
+      cases hr : keysliceLoopP a pk rest with
+      | error x => rw [hr] at hs; cases hs
+      | ok out =>
+        rw [hr] at hs; simp only at hs
+        cases h1 : keysliceOne { a with key := none } k1 with
+        | none =>
+          rw [h1] at hs; simp only [Except.ok.injEq] at hs; subst hs
+          exact ih out o hr hrej
+        | some k2 =>
+          rw [h1] at hs; simp only [Except.ok.injEq] at hs; subst hs
+          have hk2 : rej k2 = none := hrej (k2, v) List.mem_cons_self
+          simp only [hk2, List.foldl_cons]
+          exact ih out _ hr (fun q hq => hrej q (List.mem_cons_of_mem _ hq))
+
+theorem keys_dictOf_mem (ps : List (Str × V)) (x : Str) : x ∈ keys (dictOf ps) ↔ x ∈ keys ps := by
+  rw [mem_keys_iff_lookup, lookup_dictOf, dictGet_isSome]
+  simp only [keys, List.mem_map]
+  constructor
+  · rintro ⟨v, hv⟩; exact ⟨(x, v), hv, rfl⟩
+  · rintro ⟨⟨k, v⟩, hp, rfl⟩; exact ⟨v, hp⟩
+
+/-- the preparation of `lazyUpdate` (no pair looked at) succeeds exactly when the arguments are usable -/
+theorem lazy_setup_ok (su : Setup) (a : Args) (h : SetupOk su a) :
+    keyslicePairsP su a (fun k => .ok k) ([] : List (Str × V)) = .ok [] := by
+  rw [keyslicePairsP_setup su a _ _ h]; rfl
+
+/-- **lazyUpdate_eq_on_success** — whenever the selection can be computed in full and the object
+    accepts every selected name, the interleaved variant and `update_object` as written end in the
+    SAME object (attribute order included) and both return normally: the seeded mutation is
+    invisible on every successful call.  With `lazyUpdate_fails`: it shows on selection errors. -/
+theorem lazyUpdate_eq_on_success (su : Setup) (a : Args) (pk : PKey) (rej : Str → Option Err)
+    (e : Elem V) (o : Obj V) (sl : List (Str × V)) (hs : sliceP su a pk e = .ok sl)
+    (hrej : ∀ p ∈ sl, rej p.1 = none) :
+    lazyUpdate su a pk rej e o = updateObjectP su a pk rej e o ∧
+      (updateObjectP su a pk rej e o).exc = none ∧
+      (updateObjectP su a pk rej e o).obj = sl.foldl (fun o p => o.set p.1 p.2) o := by
+  obtain ⟨hok, _⟩ := (sliceP_ok_iff su a pk e).mp ⟨sl, hs⟩
+  have hupd : updateObjectP su a pk rej e o = writeAll rej o sl := by simp [updateObjectP, hs]
+  unfold sliceP at hs
+  rw [keyslicePairsP_setup su a pk _ hok] at hs
+  cases hl : keysliceLoopP a pk (sortByKey e) with
+  | error x => rw [hl] at hs; cases hs
+  | ok sel =>
+    rw [hl] at hs
+    simp only [Except.ok.injEq] at hs
+    subst hs
+    have hrej' : ∀ p ∈ sel, rej p.1 = none := by
+      intro p hp
+      have hk : p.1 ∈ keys (dictOf sel) := (keys_dictOf_mem sel p.1).mpr (List.mem_map.mpr ⟨p, hp, rfl⟩)
+      obtain ⟨q, hq, hqk⟩ := List.mem_map.mp hk
+      rw [← hqk]; exact hrej q hq
+    rw [hupd, writeAll_ok rej o _ hrej]
+    refine ⟨?_, rfl, rfl⟩
+    unfold lazyUpdate
+    rw [lazy_setup_ok su a hok]
+    simp only
+    rw [lazyLoop_ok a pk rej _ sel o hl hrej', foldl_set_dictOf]
+
+
+/-! ### … and shows exactly on a selection error that comes after an effective write -/
+
+/-- a selection that fails: the pairs before the first field the key function rejects are all keyed -/
+theorem keysliceLoopP_error_split (a : Args) (pk : PKey) (ps : List (Str × V)) (x : Err)
+    (h : keysliceLoopP a pk ps = .error x) :
+    ∃ pre k v post sel, ps = pre ++ (k, v) :: post ∧ keysliceLoopP a pk pre = .ok sel ∧ pk k = .error x := by
+  induction ps with
+  | nil => simp [keysliceLoopP] at h
+  | cons p rest ih =>
+    obtain ⟨k, v⟩ := p
+    simp only [keysliceLoopP] at h
+    cases hk : pk k with
+    | error y =>
+      rw [hk] at h; simp only [Except.error.injEq] at h; subst h
+      exact ⟨[], k, v, rest, [], rfl, rfl, hk⟩
+    | ok k1 =>
+      rw [hk] at h; simp only at h
+      cases hr : keysliceLoopP a pk rest with
+      | ok out => rw [hr] at h; simp only at h; split at h <;> cases h
+      | error y =>
+        rw [hr] at h; simp only [Except.error.injEq] at h; subst h
+        obtain ⟨pre, k', v', post, sel, hps, hpre, hk'⟩ := ih hr
+        refine ⟨(k, v) :: pre, k', v', post,
+          (match keysliceOne { a with key := none } k1 with | none => sel | some k2 => (k2, v) :: sel),
+          by simp [hps], ?_, hk'⟩
+        simp only [keysliceLoopP, hk, hpre]
+        cases keysliceOne { a with key := none } k1 <;> rfl
+
+theorem keysliceLoopP_error_of_split (a : Args) (pk : PKey) (pre post sel : List (Str × V)) (k : Str) (v : V)
+    (x : Err) (hpre : keysliceLoopP a pk pre = .ok sel) (hk : pk k = .error x) :
+    keysliceLoopP a pk (pre ++ (k, v) :: post) = .error x := by
+  induction pre generalizing sel with
+  | nil => simp [keysliceLoopP, hk]
+  | cons p rest ih =>
+    obtain ⟨k0, v0⟩ := p
+    simp only [keysliceLoopP] at hpre
+    cases h0 : pk k0 with
+    | error y => rw [h0] at hpre; cases hpre
+    | ok k1 =>
+      rw [h0] at hpre; simp only at hpre
+      cases hr : keysliceLoopP a pk rest with
+      | error y => rw [hr] at hpre; cases hpre
+      | ok out => simp only [List.cons_append, keysliceLoopP, h0, ih out hr]
+
+/-- the interleaved loop on a selection that fails at `k`: the selected pairs before `k` are written -/
+theorem lazyLoop_selection_error (a : Args) (pk : PKey) (rej : Str → Option Err) (pre post sel : List (Str × V))
+    (k : Str) (v : V) (x : Err) (o : Obj V)
+    (hpre : keysliceLoopP a pk pre = .ok sel) (hk : pk k = .error x) (hrej : ∀ p ∈ sel, rej p.1 = none) :
+    lazyLoop a pk rej o (pre ++ (k, v) :: post) = ⟨some x, sel.foldl (fun o p => o.set p.1 p.2) o⟩ := by
+  induction pre generalizing sel o with
+  | nil =>
+    simp only [keysliceLoopP, Except.ok.injEq] at hpre; subst hpre
+    simp [lazyLoop, hk]
+  | cons p rest ih =>
+    obtain ⟨k0, v0⟩ := p
+    simp only [keysliceLoopP] at hpre
+    cases h0 : pk k0 with
+    | error y => rw [h0] at hpre; cases hpre
+    | ok k1 =>
+      rw [h0] at hpre; simp only at hpre
+      cases hr : keysliceLoopP a pk rest with
+      | error y => rw [hr] at hpre; cases hpre
+      | ok out =>
+        rw [hr] at hpre; simp only at hpre
+        simp only [List.cons_append, lazyLoop, h0]
+        cases h1 : keysliceOne { a with key := none } k1 with
+        | none =>
+          rw [h1] at hpre; simp only [Except.ok.injEq] at hpre; subst hpre
+          exact ih out o hr hrej
+        | some k2 =>
+          rw [h1] at hpre; simp only [Except.ok.injEq] at hpre; subst hpre
+          have hk2 : rej k2 = none := hrej (k2, v0) List.mem_cons_self
+          simp only [hk2, List.foldl_cons]
+          exact ih out _ hr (fun q hq => hrej q (List.mem_cons_of_mem _ hq))
+
+/-- **lazyUpdate_differs_iff** — on an object that accepts every `setattr`, the interleaved variant
+    and `update_object` differ in what they leave behind EXACTLY when the arguments are usable, the
+    key function rejects a field, and the writes of the pairs selected BEFORE the first rejected
+    field (in sorted order) change the object — in particular at least one pair has been emitted
+    (`lazyUpdate_differs_emitted`); the exception is the same in both. -/
+theorem lazyUpdate_differs_iff (su : Setup) (a : Args) (pk : PKey) (e : Elem V) (o : Obj V) :
+    lazyUpdate su a pk (fun _ => none) e o ≠ updateObjectP su a pk (fun _ => none) e o ↔
+      SetupOk su a ∧ ∃ pre k v post sel x, sortByKey e = pre ++ (k, v) :: post ∧
+        keysliceLoopP a pk pre = .ok sel ∧ pk k = .error x ∧
+        sel.foldl (fun o p => o.set p.1 p.2) o ≠ o ∧
+        lazyUpdate su a pk (fun _ => none) e o = ⟨some x, sel.foldl (fun o p => o.set p.1 p.2) o⟩ ∧
+        updateObjectP su a pk (fun _ => none) e o = ⟨some x, o⟩ := by
+  have key : ∀ pre k v post sel x, SetupOk su a → sortByKey e = pre ++ (k, v) :: post →
+      keysliceLoopP a pk pre = .ok sel → pk k = .error x →
+      lazyUpdate su a pk (fun _ => none) e o = ⟨some x, sel.foldl (fun o p => o.set p.1 p.2) o⟩ ∧
+        updateObjectP su a pk (fun _ => none) e o = ⟨some x, o⟩ := by
+    intro pre k v post sel x hok hps hpre hk
+    constructor
+    · unfold lazyUpdate
+      rw [lazy_setup_ok su a hok]
+      simp only
+      rw [hps]
+      exact lazyLoop_selection_error a pk _ pre post sel k v x o hpre hk (fun _ _ => rfl)
+    · apply update_object_atomic_on_selection_error
+      unfold sliceP
+      rw [keyslicePairsP_setup su a pk _ hok, hps, keysliceLoopP_error_of_split a pk pre post sel k v x hpre hk]
+  constructor
+  · intro hne
+    cases hs : sliceP su a pk e with
+    | ok sl => exact absurd (lazyUpdate_eq_on_success su a pk _ e o sl hs (fun _ _ => rfl)).1 hne
+    | error x =>
+      by_cases hok : SetupOk su a
+      · refine ⟨hok, ?_⟩
+        unfold sliceP at hs
+        rw [keyslicePairsP_setup su a pk _ hok] at hs
+        cases hl : keysliceLoopP a pk (sortByKey e) with
+        | ok sel => rw [hl] at hs; cases hs
+        | error y =>
+          obtain ⟨pre, k, v, post, sel, hps, hpre, hk⟩ := keysliceLoopP_error_split a pk _ y hl
+          obtain ⟨h1, h2⟩ := key pre k v post sel y hok hps hpre hk
+          refine ⟨pre, k, v, post, sel, y, hps, hpre, hk, ?_, h1, h2⟩
+          intro heq
+          apply hne
+          rw [h1, h2, heq]
+      · exfalso
+        apply hne
+        obtain ⟨y, hy⟩ := keyslicePairsP_bad su a (fun k => .ok k) ([] : List (Str × V)) hok
+        obtain ⟨z, hz⟩ := keyslicePairsP_bad su a pk (sortByKey e) hok
+        have hyz : y = z := by
+          unfold keyslicePairsP at hy hz
+          repeat' split at hy
+          all_goals (repeat' split at hz)
+          all_goals simp_all [keysliceLoopP]
+        subst hyz
+        simp [lazyUpdate, updateObjectP, sliceP, hy, hz]
+  · rintro ⟨_, pre, k, v, post, sel, x, _, _, _, hch, h1, h2⟩
+    rw [h1, h2]
+    intro heq
+    injection heq with _ ho
+    exact hch ho
+
+/-- … so a difference means at least one selected pair was emitted before the failure -/
+theorem lazyUpdate_differs_emitted (su : Setup) (a : Args) (pk : PKey) (e : Elem V) (o : Obj V)
+    (h : lazyUpdate su a pk (fun _ => none) e o ≠ updateObjectP su a pk (fun _ => none) e o) :
+    ∃ pre k v post sel x, sortByKey e = pre ++ (k, v) :: post ∧ keysliceLoopP a pk pre = .ok sel ∧
+      pk k = .error x ∧ sel ≠ [] := by
+  obtain ⟨_, pre, k, v, post, sel, x, h1, h2, h3, h4, _, _⟩ := (lazyUpdate_differs_iff su a pk e o).mp h
+  exact ⟨pre, k, v, post, sel, x, h1, h2, h3, fun e => h4 (by rw [e]; rfl)⟩
+
+-- non-vacuity: the witness of `lazyUpdate_fails` is such a case; a successful call with a renamed,
+-- repeated target key and an object that already has one of the attributes agrees
+example : (lazyUpdate (V := Nat) {} {} tableKey (fun _ => none) [("city".toList, 1), ("zip".toList, 2)]
+    [("town".toList, some 7)]).obj ≠ (updateObjectP {} {} tableKey (fun _ => none) [("city".toList, 1), ("zip".toList, 2)]
+    [("town".toList, some 7)]).obj := by decide
+def renTwice : Args := { ren := [("a".toList, "z".toList), ("c".toList, "z".toList)] }
+example :
+    sliceP (V := Nat) {} renTwice (fun k => .ok k) [("a".toList, 1), ("b".toList, 2), ("c".toList, 3)] =
+      .ok [("z".toList, 3), ("b".toList, 2)] ∧
+    lazyUpdate (V := Nat) {} renTwice (fun k => .ok k) (fun _ => none) [("a".toList, 1), ("b".toList, 2), ("c".toList, 3)]
+      [("b".toList, some 0)] = ⟨none, [("b".toList, some 2), ("z".toList, some 3)]⟩ ∧
+    updateObjectP (V := Nat) {} renTwice (fun k => .ok k) (fun _ => none) [("a".toList, 1), ("b".toList, 2), ("c".toList, 3)]
+      [("b".toList, some 0)] = ⟨none, [("b".toList, some 2), ("z".toList, some 3)]⟩ := ⟨rfl, rfl, rfl⟩
+
 end Flatland.C20.Proofs
